@@ -15,7 +15,7 @@ RULE = ("Hypothesis-generated synthetic rulesets without Markov (tie-heavy proba
         "Non-trivial = the cut leaves an un-emitted node that has >=2 parents, or another pre-terminal ties with the saved "
         "probability; distinct = hash of (model, flags, cut or cut list).")
 ASSUMPTIONS = ["the quit is an explicit 'q' line; it is noticed at the next pre-terminal boundary (C12 covers other stdin events)",
-               "Markov pre-terminals are excluded here (C15 owns mid-level resume)",
+               "the every_cut / multi_cycle parts use rulesets without Markov; the markov_rulesets part reuses C15's history oracle for rulesets with Markov levels",
                "a quit requested after the last pre-terminal was popped is not an interruption (the run has completed)"]
 
 _ROOT = None
@@ -244,7 +244,22 @@ def run_regress(rec, seed, shard, nshards, tier):
     prop_cuts(F8_CASE, rec)
 
 
+def run_markov(rec, seed, shard, nshards, tier):
+    """Rulesets WITH Markov levels: quits inside and outside the levels, judged by the shared history oracle (every pre-terminal
+    of the uninterrupted run is emitted over the whole history, only saved-position ties repeat). C15 owns the details of the
+    mid-level remainder; here the point is that nothing after it is lost."""
+    from . import c15
+    n = {'quick': 60, 'thorough': 1200}[tier]
+    core.hyp_run(rec, c15.prop_hist, c15.hist_cases(), n, seed)
+
+
+def replay_markov(case, rec):
+    from . import c15
+    return c15.prop_hist(case, rec)
+
+
 PARTS = [
+    Part('markov_rulesets', run_markov, replay_markov, {'quick': 4, 'thorough': 8}),
     Part('regression_f8', run_regress, prop_cuts, {'quick': 1, 'thorough': 1}),
     Part('every_cut', run_cuts, prop_cuts, {'quick': 8, 'thorough': 16}),
     Part('multi_cycle', run_cycles, prop_cycles, {'quick': 6, 'thorough': 16}),
